@@ -44,6 +44,9 @@ MIN_NONTRIVIAL = 200
 REQUIRED_COUNTERS = ["schedules", "coarse_schedules_exhaustive", "line_level_schedules", "line_events", "context_switches", "lock_contentions", "first_request_sharing_checked", "render_schedules", "free_running_runs", "beaker_first_use_races"]
 REQUIRED_COUNTERS += ["render_vs_modification_points"]
 REQUIRED_COUNTERS += ["decorator_rendezvous_runs"]
+REQUIRED_COUNTERS += ["loop_rendezvous_runs"]
+RULE += "; two renders held in lock-step inside nested % for loops of different shapes (rendezvous at every iteration), compared with their solo output"
+RULE += "; the concurrently rendered template holds nested % for loops whose lengths differ from render to render and print loop.index / loop.parent.index / loop.first / loop.last beside the plain loop variables"
 SHARDS = {"quick": 32, "thorough": 64}
 
 _st = {"sched": None}
@@ -384,7 +387,9 @@ RENDER_TEMPLATES = {
     "/sub/main.html": '<%inherit file="/base.html"/><%namespace name="n" file="ns.html"/><%namespace file="imp.html" import="imported, imp2"/>'
                   '<%!\ndef c16deco(fn):\n    def go(context, *a, **k):\n        context.write("<")\n        r = fn(*a, **k)\n        context.write(">")\n        return r\n    return go\n%>'
                   'M(${who})<%include file="inc.html"/>${n.nd(who)}${imported(who)}${cd(who)}${sh()}${outer2()}${dd(who)}${dd(1)}\n'
-                  '% for i in range(2):\n${loop.index}${who}\n% endfor\n'
+                  # (loops of a different length in each render, one nested in the other: a loop context belongs to the render that made it)
+                  '% for i in range(2 + int(who[1:])):\n${loop.index}=${i}${who}${"L" if loop.last else ""}\n'
+                  '% for j in "ab"[int(who[1:]) % 2:]:\n(${loop.parent.index}=${i}/${loop.index}${j}${loop.first})\n% endfor\n${loop.index}=${i}\n% endfor\n'
                   '<%def name="cd(a)" cached="True" cache_key="k-${a}" cache_timeout="30" cache_type="tA">CD(${a})</%def>'
                   '<%def name="sh()" cached="True" cache_type="tB">SH</%def>'
                   '<%def name="dd(a)" decorator="c16deco">DD(${a}|${who})</%def>'
@@ -794,6 +799,54 @@ def run_decorator_rendezvous(res):
         res.nontrivial("decorator-rendezvous", uri)
 
 
+def run_loop_rendezvous(res):
+    """two renders of one Template are inside their % for loops at the same time and advance in lock-step (every
+    iteration of either loop level meets the other render at a barrier), the two being at DIFFERENT depths and
+    positions: loop.index / first / last / parent of each render are those of its own loops"""
+    lk = _st["TemplateLookup"]()
+    lk.put_string("/loops.html", "% for i in outer:\n${sync()}${who}:${loop.index}=${i}${'F' if loop.first else ''}${'L' if loop.last else ''}\n"
+                                 "% for j in inner:\n${sync()}(${loop.parent.index}${i}/${loop.index}${j}${'l' if loop.last else ''})\n% endfor\n"
+                                 "${loop.index}${lp()}\n% endfor\n<%def name=\"lp()\">\\\n% for k in 'z':\n{${loop.index}${k}${loop.parent is None}}\\\n% endfor\n</%def>")
+    lk.put_string("/loops_inc.html", 'I{<%include file="/loops.html" args="**context.kwargs"/>}')
+    shapes = {"alice": ("abc", "xy"), "bob": ("p", "12345678")}   # 3 + 3*2 = 1 + 1*8 = 9 meetings each
+    for uri in ("/loops.html", "/loops_inc.html"):
+        tpl = lk.get_template(uri)
+        solo = {w: tpl.render_unicode(who=w, outer=o, inner=n, sync=lambda: "") for w, (o, n) in shapes.items()}
+        for rnd in range(3):
+            barrier = threading.Barrier(2)
+            outs = {}
+            timeouts = []
+
+            def sync():
+                try:
+                    barrier.wait(20)
+                except threading.BrokenBarrierError:
+                    timeouts.append(1)
+                return ""
+
+            def work(who):
+                o, n = shapes[who]
+                try:
+                    outs[who] = tpl.render_unicode(who=who, outer=o, inner=n, sync=sync)
+                except Exception as e:
+                    outs[who] = "%s: %s" % (type(e).__name__, e)
+                finally:
+                    barrier.abort()   # the other render is not kept waiting once this one has ended
+
+            ths = [threading.Thread(target=work, args=(w,), daemon=True) for w in shapes]
+            for t in ths:
+                t.start()
+            for t in ths:
+                t.join(90)
+            res.evaluations += 1
+            res.count("loop_rendezvous_runs")
+            for who in shapes:
+                if outs.get(who) != solo[who]:
+                    res.violate("render-differs-from-solo", "two renders of %s inside their %% for loops at the same time: %s got %r, alone it renders %r" % (uri, who, outs.get(who), solo[who]),
+                                witness="concurrent renders meeting inside % for loops that read loop.*")
+        res.nontrivial("loop-rendezvous", uri)
+
+
 # ------------------------------------------------------------------ plumbing
 def gen_cases(tier, seed):
     for name, (_, threads, _, cbound) in SCENARIOS.items():
@@ -868,6 +921,8 @@ def run_case(case):
             run_render_vs_modification(res)
         if case["index"] == 2:
             run_decorator_rendezvous(res)
+        if case["index"] == 3:
+            run_loop_rendezvous(res)
     elif k == "replay":
         st = sched.DFS(case["prefix"], case["bound"])
         run_schedule(case["scenario"], st, case["line"], res, case)
